@@ -31,9 +31,10 @@ WellFormed(q) == /\ ~IsSym(q[1]) /\ ~IsSym(q[Len(q)])
 Bound(s) == {x.n : x \in s.names}
 CasesOf(s) == {q \in Seqs(s, MaxLen) \cup s.extra : WellFormed(q) /\ ParseOperands(q, Bound(s)) # Bad}
 
-\* names introduced locally (as part sequences).  Introducing a name whose first word is itself a bound name is
-\* ambiguous in FEEL (where does the new name end?) and is not generated: the local names start with the unbound word n or m
-Locals == {<<"n">>, <<"n", "m">>, <<"n", "-", "m">>, <<"n", "+", "b">>, <<"m", "*", "n">>}
+\* names introduced locally (as part sequences): some start with the unbound word n or m, some with a word that is
+\* itself a bound name (at the place of declaration - before `in`, `:` or in a parameter list - only a name can stand,
+\* so the whole part sequence is the new name whatever is bound)
+Locals == {<<"n">>, <<"n", "m">>, <<"n", "-", "m">>, <<"n", "+", "b">>, <<"m", "*", "n">>, <<"a", "n">>, <<"b", "-", "n">>}
 LocalSeqs(s) == {x \in Seqs([words |-> s.words \cup {"n", "m"}, syms |-> s.syms \cup {"-", "+"}], IF MaxLen > 5 THEN 5 ELSE 4) : WellFormed(x)}
 LocalCases(s) == {c \in {[parts |-> q, local |-> L] : L \in Locals, q \in LocalSeqs(s)} :
                     /\ ParseOperands(c.parts, Bound(s) \cup {Normal(c.local)}) # Bad
